@@ -241,6 +241,11 @@ func cmdReplay(args []string) int {
 	if err := json.Unmarshal(raw, &c); err != nil {
 		die2("%v", err)
 	}
+	if c.Property == "C19" {
+		var m map[string]any
+		_ = json.Unmarshal(raw, &m)
+		return cmdReplayC19(path, m)
+	}
 	pc, ok := props[c.Property]
 	if !ok {
 		die2("unknown property %q in replay file", c.Property)
@@ -268,7 +273,7 @@ func cmdReplay(args []string) int {
 func cmdCheck(args []string) int {
 	id, fs, rest := parseCommon(args)
 	pc, ok := props[id]
-	if !ok {
+	if !ok && id != "C19" {
 		die2("unknown property %s", id)
 	}
 	tier := fs.String("tier", "", "quick|thorough")
@@ -308,6 +313,9 @@ func cmdCheck(args []string) int {
 		if *workers == 0 {
 			*workers = runtime.NumCPU()
 		}
+	}
+	if id == "C19" {
+		return cmdCheckC19(*tier, seed, *runs)
 	}
 	start := time.Now()
 	fmt.Printf("vsim: property=%s tier=%s seed=%d workers=%d budget=%.0fs repo=%s\n", id, *tier, seed, *workers, *budget, repoDir())
